@@ -146,6 +146,23 @@ Proof.
             (canonical_young s _ (run_seq_canonical s h)), run_seq_given_kept. reflexivity.
 Qed.
 
+(* identifiers drawn by retry handles: the handle of an interrupted SUBSCRIBE / UNSUBSCRIBE run on
+   another client B is an ordinary new request of B — its identifier comes from B's counter, the
+   counter a of the client the request was first sent on does not enter — and the handle of a
+   publish carries the identifier the message already has (non-zero) without moving B's counter.
+   Whatever the handle, what is observed on B is a run of the sequential model, so the window
+   theorem and non-zero-ness hold per connection, retransmissions included. *)
+Theorem C15_retry_handle_target : forall a r b hB q g,
+  run_handle_on a RSub b hB = run_seq b (hB ++ [HReq RSub]) /\
+  run_handle_on a RUnsub b hB = run_seq b (hB ++ [HReq RUnsub]) /\
+  final_counter b (hB ++ [HReq (handle_req (interrupt a (RPub q g)))]) = final_counter b hB /\
+  c15_prop_ok (run_handle_on a r b hB) = true.
+Proof.
+  intros a r b hB q g. destruct (handle_sub_fresh a b hB) as [H1 H2].
+  split; [exact H1|]. split; [exact H2|]. split; [apply handle_pub_keeps|].
+  unfold run_handle_on. apply (C15_checked_predicate b [] [] _).
+Qed.
+
 Print Assumptions C15_nonzero.
 Print Assumptions C15_nonzero_seq.
 Print Assumptions C15_one_retry.
@@ -159,6 +176,7 @@ Print Assumptions C15_back_to_back.
 Print Assumptions C15_wrap.
 Print Assumptions C15_caller_id_kept.
 Print Assumptions C15_caller_id_kept_retry.
+Print Assumptions C15_retry_handle_target.
 Print Assumptions C15_strict_refuted.
 Print Assumptions C15_reuse_period.
 Print Assumptions C15_checked_predicate.
